@@ -371,6 +371,11 @@ class _Canon(ast.NodeTransformer):
                 return a0
         if isinstance(f, ast.Name) and f.id == "str" and len(node.args) == 1 and not node.keywords and isinstance(node.args[0], ast.Attribute) and node.args[0].attr in ("name", "__name__"):
             return node.args[0]
+        # x.clone().numel() -> x.numel(): the element count / rank queries do not see a copy or graph-membership call (as the attribute forms below)
+        if isinstance(f, ast.Attribute) and f.attr in ("numel", "nelement", "dim", "size", "element_size") and isinstance(f.value, ast.Call) and isinstance(f.value.func, ast.Attribute) \
+                and f.value.func.attr in ("detach", "clone") and not f.value.args and not f.value.keywords:
+            node = ast.Call(func=ast.Attribute(value=f.value.func.value, attr=f.attr, ctx=ast.Load()), args=node.args, keywords=node.keywords)
+            f = node.func
         # tuple(x.stride()) -> x.stride()  (already a tuple)
         if isinstance(f, ast.Name) and f.id == "tuple" and len(node.args) == 1 and not node.keywords and isinstance(node.args[0], ast.Call) \
                 and isinstance(node.args[0].func, ast.Attribute) and node.args[0].func.attr == "stride" and not node.args[0].args:
@@ -1122,6 +1127,8 @@ class _StripNoop(ast.NodeTransformer):
         if isinstance(f, ast.Attribute):
             if f.attr in ("contiguous", "detach", "clone") and not node.args and all(k.arg == "memory_format" for k in node.keywords):
                 return f.value
+            if f.attr in ("clone", "detach") and isinstance(f.value, ast.Name) and f.value.id == "torch" and len(node.args) == 1 and all(k.arg == "memory_format" for k in node.keywords):
+                return node.args[0]  # torch.clone(x) / torch.detach(x)
             if f.attr == "to":
                 a = [ast.unparse(x) for x in node.args]
                 k = {x.arg: ast.unparse(x.value) for x in node.keywords}
